@@ -626,6 +626,7 @@ func (r *vX01Run) keepalive(hb map[string]string) *vX01Keep {
 		go func(m, mode string) {
 			defer k.wg.Done()
 			lastOK := r.phaseStart
+			alive := true
 			for {
 				coord, e, ok := r.cur()
 				if ok {
@@ -644,10 +645,14 @@ func (r *vX01Run) keepalive(hb map[string]string) *vX01Keep {
 								}
 								err = r.heartbeat(s, m, e)
 							}
+							// the answer to the first attempt after an accepted one must arrive before a
+							// timer that the accepted one reset can have fired; otherwise the clock
+							// cannot rule out that the driver itself was too slow
+							if alive && time.Since(lastOK) > vX01T*8/10 {
+								r.doubt = true
+							}
+							alive = err == nil
 							if err == nil {
-								if time.Since(lastOK) > vX01T*8/10 {
-									r.doubt = true
-								}
 								lastOK = start
 							} else {
 								// a refusal is an observation; the member just keeps trying
@@ -700,6 +705,27 @@ func (k *vX01Keep) end() ([]string, []string) {
 	sort.Strings(acc)
 	sort.Strings(rej)
 	return acc, rej
+}
+
+// vX01Probe spends d arming short timers one after the other and reports whether each
+// callback started within a quarter of the timeout after it was due
+func vX01Probe(d time.Duration) bool {
+	end := time.Now().Add(d)
+	ok := true
+	for time.Now().Before(end) {
+		due := time.Now().Add(10 * time.Millisecond)
+		ch := make(chan time.Duration, 1)
+		time.AfterFunc(10*time.Millisecond, func() { ch <- time.Since(due) })
+		select {
+		case late := <-ch:
+			if late > vX01T/4 {
+				ok = false
+			}
+		case <-time.After(vX01Deadline):
+			return false
+		}
+	}
+	return ok
 }
 
 // settle waits until no expiry handler is running
@@ -856,10 +882,17 @@ func (r *vX01Run) step(step map[string]interface{}) (ev vX01Event) {
 			case <-time.After(vX01Deadline):
 				panic("canary did not fire")
 			}
+			if late := time.Since(tw.Add(vX01T)); late > vX01T/4 {
+				r.doubt = true // the canary itself fired late: timers are not served in time right now
+			}
 			if d := time.Until(tw.Add(vX01T)); d > 0 {
 				time.Sleep(d)
 			}
-			time.Sleep(vX01T / 2)
+			// every timer armed before the wait is due by now; give their callbacks half a
+			// timeout, and prove by probe timers that callbacks are started promptly
+			if !vX01Probe(vX01T / 2) {
+				r.doubt = true
+			}
 			r.settle()
 			obs.Acc, obs.Rej = k.end()
 			r.settle()
